@@ -24,6 +24,7 @@ from . import sim_c06 as pool
 
 ID = "C06"
 LEVEL = "proof"
+STRENGTH = "partial"   # never_early only under `Guard` (open F5b); liveness only under `LGuard` (open F8) and as reachability
 ENGINES = ["lean-model", "pyextract", "purediff", "kopfsim"]
 TIE = ("T (conditions and effects of the finalizer block of process_resource_causes: AST → Lean, re-proved equal to the model, "
        "and `decision` = their composition) + D (real finalizers.block_deletion/allow_deletion and Patch.as_json_patch on generated "
@@ -47,7 +48,7 @@ THEOREMS = [("Kopf.Props.C06", "Kopf.C06." + n) for n in [
     "allow_after_block", "patch_is_fn_of_tested", "foreign_untouched_lts", "decision_spec",
     "never_early_partial", "never_early_inv_partial", "conflict_carries_nothing", "cycle_decides_anew",
     "stale_release_via_merge_witness", "never_early_fails",
-    "released_in_one_quiet_cycle", "wakeup_layer_refines", "no_lost_wakeup", "released_under_fairness", "injected_422_loses_wakeup",
+    "released_in_one_quiet_cycle", "wakeup_layer_refines", "no_lost_wakeup", "release_reachable_when_quiet", "injected_422_loses_wakeup", "noop_fn_loses_wakeup",
     "add_on_match", "remove_on_mismatch", "add_remove_on_match"]]
 TIE_THEOREMS = [("Kopf.Tie.C06", "Kopf.C06.Tie." + n) for n in [
     "mustBlock_eq", "add_eq", "remove_eq", "early_eq", "release_eq", "effects_eq", "decision_eq", "carry_eq"]]
@@ -89,6 +90,8 @@ SIG_F6 = {"site": "queueing.worker",
           "shape": "never released: every cycle re-patches a no-op (constant on.event result); the version it waits for was already processed, state-dependent handlers and the release are skipped forever"}
 SIG_F7 = {"site": "application.apply",
           "shape": "never released: delays with a non-empty patch that changes nothing: the sleep-then-touch is skipped and no event follows"}
+SIG_F8 = {"site": "application.apply",
+          "shape": "never released: delays with a non-empty patch that sends no request (only transformation fns without operations): taken for a change, the sleep-then-touch is skipped and no event follows"}
 SIG_EARLY = {"site": "processing.process_resource_causes", "shape": "own finalizer removed while a finalizer is required"}
 
 
@@ -423,6 +426,9 @@ def gen_scenario(rng: Any, seed: int) -> dict:
         handlers.append({"kind": kind, "id": kind[0] + "x", "opts": {}, "script": [rng.choice(["ok", ["temp", 1.0], "perm"])], "default": "ok"})
     if rng.random() < 0.15:
         handlers.append({"kind": "event", "id": "ev", "script": [], "default": ["ok", {"k": 1}]})
+    elif rng.random() < 0.06:
+        # a handler-supplied, state-checking transformation fn that has nothing to change (docs/patches.rst)
+        handlers.append({"kind": "event", "id": "ev", "script": [], "default": ["fn", "noop", "ok"]})
     labels = {"l": rng.choice(["0", "1", "1"]), "m": rng.choice(["0", "1"])}
     body: dict[str, Any] = {"spec": {"x": 0}, "metadata": {"labels": dict(labels)}}
     foreign_pool = ["other.io/a", "other.io/b", "x"]
@@ -480,6 +486,14 @@ def gen_scenario(rng: Any, seed: int) -> dict:
 
 
 # ---- reading a trace ------------------------------------------------------------------------------
+OWN_FNS = ("block_deletion", "allow_deletion")
+
+
+def _own_fns(names: list) -> list:
+    """The framework's own finalizer edits among the patch's transformation fns (handlers may add theirs)."""
+    return [n for n in names if n in OWN_FNS]
+
+
 def _regs(h: dict) -> list[dict]:
     """The registrations of a handler declaration: one, or several for a stacked function (same fn, same id)."""
     return [dict(o) for o in h["stack"]] if "stack" in h else [h.get("opts") or {}]
@@ -585,7 +599,7 @@ class View:
             out.append(c)
         return out
 
-    def required_at(self, uid: str, labels: dict, T: float, upto: int | None = None) -> list[str]:
+    def required_at(self, uid: str, labels: dict, T: float, upto: int | None = None, marked_now: bool = True) -> list[str]:
         """Who requires the finalizer at instant T on an object with these labels (from the statement)."""
         why = []
         for h in self.handlers:
@@ -605,6 +619,13 @@ class View:
                     if h["kind"] == "daemon" and to is not None and stops and T >= min(stops) + (o.get("cancellation_backoff") or 0) + to:
                         continue
                     why.append(f"{h['kind']} {h['id']} (started {c['t']}) is alive")
+                # a timer's task lives between its invocations too: while the object is not marked and matches it,
+                # nothing ever stops it (it never exits on its own accord) once this process has seen the object
+                if h["kind"] == "timer" and not marked_now and not any("timer" in w and h["id"] in w for w in why):
+                    seen = any(c2.get("uid") == uid and c2["t0"] <= T and self.ends.get(c2["inc"], float("inf")) > T
+                               and (upto is None or c2["i"] < upto) for c2 in self.tr["cycles"])
+                    if seen:
+                        why.append(f"timer {h['id']} matches the unmarked object: its task is alive between invocations")
         return why
 
 
@@ -638,7 +659,7 @@ def _changed(cyc: dict, ab: dict) -> bool:
     """Did the cycle's patch change the object, as far as the operator can tell? A non-empty patch whose last
     response carries a version other than the one the cycle worked on — or carries none (422/404), or releases the object."""
     merge, js = ab["merge"], ab["json"]
-    if merge is None and js is None and not ab["fns"]:
+    if merge is None and js is None and not ab["fns"] and not ab.get("user_fns"):
         return False
     body = None
     for r in (merge, js):
@@ -709,7 +730,9 @@ def abstract_cycle(view: View, cyc: dict) -> dict | None:
         else:
             fresh = _fins(merge["result"])
     ma = cyc.get("mem_after") or {}
-    return {"in": inp, "carried": carried, "fns": list(ap["fns"]), "new": list(ap["fns"][carried:]), "ran": pcc is not None,
+    return {"in": inp, "carried": len(_own_fns(ap["fns"][:carried])), "carried_raw": carried,
+            "fns": _own_fns(ap["fns"]), "new": _own_fns(ap["fns"][carried:]),
+            "user_fns": len(ap["fns"]) != len(_own_fns(ap["fns"])), "ran": pcc is not None,
             "fresh": fresh, "merge": merge, "json": js, "marked": inp["isOngoing"],
             "carried_after": ((ma.get("remaining_patch") or {}).get("fns") or 0) if cyc.get("mem_after") is not None else None}
 
@@ -794,7 +817,7 @@ def trace_items(view: View) -> tuple[dict, list, dict] | None:
         if merge is not None and _touch_only(merge) and not ap["patch"]:
             merge = None
         carried = ((mb.get("remaining_patch") or {}).get("fns") or 0)
-        new = list(ap["fns"][carried:])
+        new = _own_fns(ap["fns"][carried:])
         chg_hs = [h for h in view.handlers if h["kind"] in CHANGING_KINDS]
         changing = any(_match(h, labels) for h in chg_hs)
         early = bool(cyc.get("cause") is not None and changing and pcc is None and not new)
@@ -804,9 +827,10 @@ def trace_items(view: View) -> tuple[dict, list, dict] | None:
         env = {"consistent": not early, "merge": merge is not None,
                "otherChanging": any(_match(h, labels) for h in chg_hs if h is not hdel),
                "otherDelays": bool(pcc and pcc.get("delays")), "mergeChanges": mchg,
+               "userFns": len(ap["fns"]) != len(_own_fns(ap["fns"])),
                "delReset": bool(pcc is not None and not done_after)}
         snap = {"rv": vi, "marked": marked_v, "fins": _fins(body), "matchDel": mdel(labels), "matchDmn": mdmn(labels)}
-        exp: dict[str, Any] = {"pending": {"fns": list(ap["fns"]), "merge": merge is not None, "view": _fins(body),
+        exp: dict[str, Any] = {"pending": {"fns": _own_fns(ap["fns"]), "merge": merge is not None, "view": _fins(body),
                                            "fresh": None}, "cycDelays": bool(ap.get("delays"))}
         if hdel:
             exp["delDone"] = done_after
@@ -842,6 +866,10 @@ def trace_items(view: View) -> tuple[dict, list, dict] | None:
                 continue
         else:
             expj: dict[str, Any] = {"pending": None, "mem": []}
+            if ap.get("delays") and "remaining_fns" in ap:
+                sl = _slept(view, cyc, {"merge": merge, "json": js})
+                if sl is not None:
+                    expj["sleeping"] = sl     # application.apply: sleep-then-touch iff the patch was empty or changed nothing
             items.append((*jkey(tj, t, merge_idx, seq + 4), ["json", False], expj, "json"))
         for r in _cycle_requests(view, cyc):
             if r is not merge and r is not js and _touch_only(r) and r.get("response") == 200:
@@ -946,7 +974,8 @@ def oracle(ctx: Ctx, sc: dict, tr: dict) -> dict:
                 T = cur["t"]
                 labels = _labels(cur["body"])
                 cyc = cycles_by_req.get(id(w))
-                why = view.required_at(uid, labels, T, cyc["i"] if cyc else None)
+                why = view.required_at(uid, labels, T, cyc["i"] if cyc else None,
+                                       marked_now=bool(_meta(cur["body"]).get("deletionTimestamp")))
                 if why:
                     stats["early"] += 1
                     sig, note = classify_early(view, cyc, w, uid, T)
@@ -1061,6 +1090,8 @@ def _classify_stuck(view: View, cycles: list[dict]) -> dict:
     merge, js = _main_requests(view, last) if last else (None, None)
     noop = merge is not None and isinstance(merge.get("result"), dict) and \
         _meta(merge["result"]).get("resourceVersion") == last.get("rv") and js is None
+    if ap.get("delays") and not ap.get("patch") and ap.get("fns") and merge is None and js is None:
+        return SIG_F8
     if ap.get("delays") and ap.get("patch") and noop:
         return SIG_F7
     if ap.get("patch") and noop and not last.get("pcc"):
@@ -1093,9 +1124,12 @@ def check_liveness(ctx: Ctx, view: View, sc: dict, tr: dict) -> None:
         uid, labels = m.get("uid"), _labels(body)
         blockers = []
         for h in view.handlers:
-            if h["kind"] == "delete" and _match(h, labels) and not view.finished(h, uid, end):
+            # strictly the property's list: matching MANDATORY deletion handlers that have not finished, and matching
+            # daemons/timers that are alive (an optional handler still retrying, or a mismatching daemon still being
+            # stopped, is no excuse for keeping the finalizer forever)
+            if _mandatory(h, labels) and not view.finished(h, uid, end):
                 blockers.append(h["id"])
-            if h["kind"] in SPAWNING_KINDS and view.live_calls(h, uid, end):
+            if h["kind"] in SPAWNING_KINDS and _match(h, labels) and view.live_calls(h, uid, end):
                 blockers.append(h["id"])
         if not blockers:
             ctx.oracle_fail(f"the object is marked for deletion, every matching deletion handler has finished, no daemon runs, yet the "
@@ -1148,9 +1182,9 @@ def run_scenarios(ctx: Ctx, scenarios: list[dict], names: list[str | None]) -> N
                 continue
             # memory continuity: what this cycle starts with is what the previous one of the same process left
             p = prev.get(key)
-            if p is not None and p["carried_after"] is not None and p["carried_after"] != ab["carried"]:
+            if p is not None and p["carried_after"] is not None and p["carried_after"] != ab["carried_raw"]:
                 ctx.tie_fail("carried fns differ from what the previous cycle left in memory", {"scenario": sc, "cycle": cyc["i"]})
-            if p is None and ab["carried"]:
+            if p is None and ab["carried_raw"]:
                 ctx.tie_fail("a fresh memory starts with carried fns", {"scenario": sc, "cycle": cyc["i"]})
             prev[key] = ab
             i = ab["in"]
@@ -1175,7 +1209,9 @@ def run_scenarios(ctx: Ctx, scenarios: list[dict], names: list[str | None]) -> N
                 impls.append(slept)
                 where.append({"scenario": sc, "cycle": cyc["i"], "what": "sleep"})
                 ctx.count("S.sleep_after_delays", slept)
-            if ab["fresh"] is not None and (js is None or js.get("response") in (200, 422)):
+            if ab["user_fns"]:
+                ctx.count("S.cycles", "patch step not compared (handler-supplied fns in the patch)")
+            elif ab["fresh"] is not None and (js is None or js.get("response") in (200, 422)):
                 accepted = js is None or js.get("response") == 200
                 reqs.append(["C06.patch", OWN, ab["fns"], ab["fresh"], ab["marked"], accepted])
                 impl_fins = ab["fresh"]
